@@ -55,6 +55,7 @@ func init() { register("entitylocal", genEntityLocal) }
 type elEvent struct {
 	kind   string         // lock unlock search create append copy store yield nextid return call
 	detail string         // mutex expression / callee
+	own    bool           // modify: the address handed to the helper is the receiver's own (see origin)
 	held   map[string]int // mutex expression -> number of its critical section, for the mutexes held at this point
 	depth  int
 }
@@ -66,13 +67,279 @@ type elInterp struct {
 	epoch   map[string]int
 	env     map[string]*elClosure // function literals bound to names visible in the current frame
 	modelUC map[string]bool       // methods of model.NodeManagementUseCaseDataType
+	ucDecl  map[string]*ast.FuncDecl
+	vals    map[string]string // where the value of a name of the current frame comes from (see origin)
+	cond    int               // > 0 inside a branch or loop body: an assignment there may or may not happen
+}
+
+// ---- where a value comes from (added in round 5): just enough symbolic evaluation to decide whether the address an
+// operation hands to the helper of the data type is the receiver's OWN address — a model.FeatureAddressType whose
+// Device and Entity are those of the receiver's Address() and whose Feature is not set — through local variables,
+// helper methods of the receiver, closure parameters, field-wise construction, & and util.Ptr(*x).
+const (
+	elRecv     = "recv"         // the receiver of the operation under analysis (also its embedded *Entity)
+	elRecvAddr = "recv.address" // its address: the field `address` of the embedded Entity / what Address() returns
+	elOwnAddr  = "fa:" + elRecvAddr + ".Device|" + elRecvAddr + ".Entity|"
+	elConflict = "?"
+)
+
+func elFA(dev, ent, feat string) string { return "fa:" + dev + "|" + ent + "|" + feat }
+
+func (in *elInterp) setVal(name, o string) {
+	if name == "_" || in.vals == nil {
+		return
+	}
+	if old, ok := in.vals[name]; ok && in.cond > 0 && old != o {
+		o = elConflict // assigned on some paths only: neither value can be relied on
+	}
+	in.vals[name] = o
+}
+
+func (in *elInterp) origin(e ast.Expr, depth int) string {
+	if in.vals == nil || e == nil {
+		return ""
+	}
+	switch x := e.(type) {
+	case *ast.ParenExpr:
+		return in.origin(x.X, depth)
+	case *ast.UnaryExpr:
+		if x.Op == token.AND {
+			return in.origin(x.X, depth)
+		}
+	case *ast.StarExpr:
+		return in.origin(x.X, depth)
+	case *ast.Ident:
+		return in.vals[x.Name]
+	case *ast.SelectorExpr:
+		o := in.origin(x.X, depth)
+		switch {
+		case o == elRecv && x.Sel.Name == "Entity":
+			return elRecv
+		case o == elRecv && x.Sel.Name == "address":
+			return elRecvAddr
+		case o == elRecvAddr && (x.Sel.Name == "Device" || x.Sel.Name == "Entity"):
+			return elRecvAddr + "." + x.Sel.Name
+		case strings.HasPrefix(o, "fa:"):
+			parts := strings.SplitN(strings.TrimPrefix(o, "fa:"), "|", 3)
+			switch x.Sel.Name {
+			case "Device":
+				return parts[0]
+			case "Entity":
+				return parts[1]
+			}
+		}
+	case *ast.CompositeLit:
+		if x.Type != nil && strings.HasSuffix(exprString(x.Type), "FeatureAddressType") {
+			dev, ent, feat := "", "", ""
+			for i, el := range x.Elts {
+				if kv, ok := el.(*ast.KeyValueExpr); ok {
+					switch exprString(kv.Key) {
+					case "Device":
+						dev = in.origin(kv.Value, depth)
+					case "Entity":
+						ent = in.origin(kv.Value, depth)
+					default:
+						feat = "set"
+					}
+					continue
+				}
+				switch i {
+				case 0:
+					dev = in.origin(el, depth)
+				case 1:
+					ent = in.origin(el, depth)
+				default:
+					feat = "set"
+				}
+			}
+			return elFA(dev, ent, feat)
+		}
+	case *ast.CallExpr:
+		if depth > 4 {
+			return ""
+		}
+		switch f := x.Fun.(type) {
+		case *ast.SelectorExpr:
+			if (exprString(f) == "util.Ptr" || f.Sel.Name == "Ptr") && len(x.Args) == 1 {
+				return in.origin(x.Args[0], depth)
+			}
+			if o := in.origin(f.X, depth); o == elRecv {
+				for _, t := range []string{"EntityLocal", "Entity"} {
+					if callee := in.funcs[t+"."+f.Sel.Name]; callee != nil && callee.Body != nil {
+						return in.originOfCall(callee, x.Args, elRecv, depth)
+					}
+				}
+				if f.Sel.Name == "Address" && len(x.Args) == 0 {
+					return elRecvAddr
+				}
+			}
+		case *ast.Ident:
+			if callee := in.funcs["."+f.Name]; callee != nil && callee.Body != nil {
+				return in.originOfCall(callee, x.Args, "", depth)
+			}
+		}
+	}
+	return ""
+}
+
+// originOfCall: what a function of the package returns, its parameters bound to where the arguments come from;
+// flow-insensitive (assignments in source order, every return must agree)
+func (in *elInterp) originOfCall(callee *ast.FuncDecl, args []ast.Expr, recv string, depth int) string {
+	nv := map[string]string{}
+	if rn := elRecvName(callee); rn != "" {
+		nv[rn] = recv
+	}
+	params := elParamNames(callee)
+	for i, a := range args {
+		if i < len(params) {
+			nv[params[i]] = in.origin(a, depth)
+		}
+	}
+	saved, savedCond := in.vals, in.cond
+	in.vals = nv
+	res, first := "", true
+	for _, top := range callee.Body.List {
+		in.cond = 1
+		switch top.(type) {
+		case *ast.AssignStmt, *ast.DeclStmt, *ast.ReturnStmt:
+			in.cond = 0
+		}
+		ast.Inspect(top, func(n ast.Node) bool {
+			switch y := n.(type) {
+			case *ast.FuncLit:
+				return false
+			case *ast.AssignStmt:
+				in.bind(y.Lhs, y.Rhs, depth+1)
+			case *ast.ValueSpec:
+				var lhs []ast.Expr
+				for _, nm := range y.Names {
+					lhs = append(lhs, nm)
+				}
+				if len(y.Values) > 0 {
+					in.bind(lhs, y.Values, depth+1)
+				}
+			case *ast.ReturnStmt:
+				o := ""
+				if len(y.Results) >= 1 {
+					o = in.origin(y.Results[0], depth+1)
+				}
+				if first {
+					res, first = o, false
+				} else if res != o {
+					res = ""
+				}
+			}
+			return true
+		})
+	}
+	in.vals, in.cond = saved, savedCond
+	return res
+}
+
+// bind records where the assigned names come from; `x.Device = v` / `x.Entity = v` / `x.Feature = v` update the
+// address value held by x
+func (in *elInterp) bind(lhs, rhs []ast.Expr, depth int) {
+	if in.vals == nil {
+		return
+	}
+	for i, l := range lhs {
+		o := ""
+		if len(lhs) == len(rhs) {
+			o = in.origin(rhs[i], depth)
+		}
+		switch x := l.(type) {
+		case *ast.Ident:
+			in.setVal(x.Name, o)
+		case *ast.SelectorExpr:
+			if id, ok := x.X.(*ast.Ident); ok && strings.HasPrefix(in.vals[id.Name], "fa:") {
+				parts := strings.SplitN(strings.TrimPrefix(in.vals[id.Name], "fa:"), "|", 3)
+				k, v := 2, "set"
+				switch x.Sel.Name {
+				case "Device":
+					k, v = 0, o
+				case "Entity":
+					k, v = 1, o
+				}
+				if in.cond > 0 && parts[k] != v {
+					v = elConflict
+				}
+				parts[k] = v
+				in.vals[id.Name] = elFA(parts[0], parts[1], parts[2])
+			}
+		}
+	}
+}
+
+// addrArgIndex: the position of the FeatureAddressType parameter of a helper of the use-case data type
+func (in *elInterp) addrArgIndex(helper string) int {
+	fd := in.ucDecl[helper]
+	if fd == nil || fd.Type.Params == nil {
+		return 0
+	}
+	i := 0
+	for _, f := range fd.Type.Params.List {
+		n := len(f.Names)
+		if n == 0 {
+			n = 1
+		}
+		if strings.TrimPrefix(exprString(f.Type), "*") == "FeatureAddressType" {
+			return i
+		}
+		i += n
+	}
+	return 0
+}
+
+func (in *elInterp) emitModify(helper string, args []ast.Expr, shift int, depth int) {
+	own := false
+	if idx := in.addrArgIndex(helper) + shift; idx < len(args) {
+		own = in.origin(args[idx], depth) == elOwnAddr
+	}
+	in.emit("modify", helper, depth)
+	in.trace[len(in.trace)-1].own = own
 }
 
 // a function literal together with the frame it was written in
 type elClosure struct {
-	lit *ast.FuncLit
-	fd  *ast.FuncDecl
-	env map[string]*elClosure
+	lit    *ast.FuncLit
+	fd     *ast.FuncDecl
+	env    map[string]*elClosure
+	method string // not a literal but a method expression / method value of the use-case data type: (*T).M, data.M
+	shift  int    // method expression: the receiver is the first argument
+	vals   map[string]string
+}
+
+func elMethodShift(e ast.Expr) int {
+	for {
+		p, ok := e.(*ast.ParenExpr)
+		if !ok {
+			break
+		}
+		e = p.X
+	}
+	if s, ok := e.(*ast.SelectorExpr); ok {
+		switch s.X.(type) {
+		case *ast.ParenExpr, *ast.SelectorExpr, *ast.StarExpr:
+			return 1 // (*model.T).M, model.T.M
+		}
+	}
+	return 0
+}
+
+// elMethodValue: the expression is a method expression or method value naming a helper of the use-case data type
+// ((*model.NodeManagementUseCaseDataType).M, model.NodeManagementUseCaseDataType.M, data.M — not a call)
+func (in *elInterp) elMethodValue(e ast.Expr) string {
+	for {
+		p, ok := e.(*ast.ParenExpr)
+		if !ok {
+			break
+		}
+		e = p.X
+	}
+	if s, ok := e.(*ast.SelectorExpr); ok && in.modelUC[s.Sel.Name] {
+		return s.Sel.Name
+	}
+	return ""
 }
 
 func elParamNames(fd *ast.FuncDecl) []string {
@@ -207,6 +474,8 @@ func (in *elInterp) branch(b *ast.BlockStmt, fd *ast.FuncDecl, depth int, defers
 	if b == nil {
 		return
 	}
+	in.cond++
+	defer func() { in.cond-- }()
 	if elTerminates(b) {
 		saved := map[string]int{}
 		for k, v := range in.held {
@@ -259,10 +528,15 @@ func (in *elInterp) walkStmt(st ast.Stmt, fd *ast.FuncDecl, depth int, defers *[
 		for i, l := range x.Lhs {
 			if id, ok := l.(*ast.Ident); ok && i < len(x.Rhs) && in.env != nil {
 				if fl, ok := x.Rhs[i].(*ast.FuncLit); ok {
-					in.env[id.Name] = &elClosure{lit: fl, fd: fd, env: in.env}
+					in.env[id.Name] = &elClosure{lit: fl, fd: fd, env: in.env, vals: in.vals}
+				} else if _, isCall := x.Rhs[i].(*ast.CallExpr); !isCall {
+					if m := in.elMethodValue(x.Rhs[i]); m != "" {
+						in.env[id.Name] = &elClosure{method: m, shift: elMethodShift(x.Rhs[i])}
+					}
 				}
 			}
 		}
+		in.bind(x.Lhs, x.Rhs, depth)
 		for i, l := range x.Lhs {
 			if s, ok := l.(*ast.SelectorExpr); ok && s.Sel.Name == "features" && i < len(x.Rhs) {
 				if c, ok := x.Rhs[i].(*ast.CallExpr); ok && exprString(c.Fun) == "append" {
@@ -285,7 +559,9 @@ func (in *elInterp) walkStmt(st ast.Stmt, fd *ast.FuncDecl, depth int, defers *[
 		if elMentionsFeatures(x.X) && elTypeRoleCond(x.Body) {
 			in.emit("search", "range "+exprString(x.X), depth)
 		}
+		in.cond++
 		in.walkBlock(x.Body.List, fd, depth, defers)
+		in.cond--
 	case *ast.ForStmt:
 		in.walkStmt(x.Init, fd, depth, defers)
 		if x.Cond != nil {
@@ -294,8 +570,10 @@ func (in *elInterp) walkStmt(st ast.Stmt, fd *ast.FuncDecl, depth int, defers *[
 				in.emit("search", "for over features", depth)
 			}
 		}
+		in.cond++
 		in.walkBlock(x.Body.List, fd, depth, defers)
 		in.walkStmt(x.Post, fd, depth, defers)
+		in.cond--
 	case *ast.SwitchStmt:
 		in.walkStmt(x.Init, fd, depth, defers)
 		if x.Tag != nil {
@@ -324,6 +602,13 @@ func (in *elInterp) walkStmt(st ast.Stmt, fd *ast.FuncDecl, depth int, defers *[
 			if vs, ok := n.(*ast.ValueSpec); ok {
 				for _, v := range vs.Values {
 					in.walkExpr(v, fd, depth)
+				}
+				if len(vs.Values) > 0 {
+					var lhs []ast.Expr
+					for _, nm := range vs.Names {
+						lhs = append(lhs, nm)
+					}
+					in.bind(lhs, vs.Values, depth)
 				}
 				return false
 			}
@@ -375,17 +660,39 @@ func (in *elInterp) call(c *ast.CallExpr, fd *ast.FuncDecl, depth int) {
 		}
 	}
 	if id, ok := c.Fun.(*ast.Ident); ok {
+		if cl := in.env[id.Name]; cl != nil && cl.method != "" {
+			in.emitModify(cl.method, c.Args, cl.shift, depth)
+			return
+		}
 		if cl := in.env[id.Name]; cl != nil && depth < 4 {
 			// a call of a bound function literal: interpret its body here, in the frame it was written in
 			in.emit("call", name, depth)
-			saved := in.env
-			in.env = cl.env
+			saved, savedVals := in.env, in.vals
+			nv := map[string]string{}
+			for k, v := range cl.vals {
+				nv[k] = v
+			}
+			if cl.lit.Type.Params != nil {
+				i := 0
+				for _, f := range cl.lit.Type.Params.List {
+					for _, nm := range f.Names {
+						if i < len(c.Args) {
+							nv[nm.Name] = in.origin(c.Args[i], depth)
+						}
+						i++
+					}
+					if len(f.Names) == 0 {
+						i++
+					}
+				}
+			}
+			in.env, in.vals = cl.env, nv
 			var defers []string
 			in.walkBlock(cl.lit.Body.List, cl.fd, depth+1, &defers)
 			for i := len(defers) - 1; i >= 0; i-- {
 				in.unlock(defers[i], depth+1)
 			}
-			in.env = saved
+			in.env, in.vals = saved, savedVals
 			return
 		}
 	}
@@ -399,7 +706,7 @@ func (in *elInterp) call(c *ast.CallExpr, fd *ast.FuncDecl, depth int) {
 			}
 		}
 		if !onRecv {
-			in.emit("modify", sel.Sel.Name, depth)
+			in.emitModify(sel.Sel.Name, c.Args, 0, depth)
 			return
 		}
 	}
@@ -445,31 +752,46 @@ func (in *elInterp) call(c *ast.CallExpr, fd *ast.FuncDecl, depth int) {
 	}
 	if callee != nil && callee != fd {
 		newEnv := map[string]*elClosure{}
+		newVals := map[string]string{}
+		if rn := elRecvName(callee); rn != "" && isSel {
+			newVals[rn] = in.origin(sel.X, depth)
+		}
 		params := elParamNames(callee)
 		for i, a := range c.Args {
 			if i >= len(params) {
 				break
 			}
+			newVals[params[i]] = in.origin(a, depth)
 			switch x := a.(type) {
 			case *ast.FuncLit:
-				newEnv[params[i]] = &elClosure{lit: x, fd: fd, env: in.env}
+				newEnv[params[i]] = &elClosure{lit: x, fd: fd, env: in.env, vals: in.vals}
 			case *ast.Ident:
 				if cl := in.env[x.Name]; cl != nil {
 					newEnv[params[i]] = cl
 				}
+			default:
+				if m := in.elMethodValue(a); m != "" {
+					newEnv[params[i]] = &elClosure{method: m, shift: elMethodShift(a)}
+				}
 			}
 		}
-		saved := in.env
-		in.env = newEnv
+		saved, savedVals := in.env, in.vals
+		in.env, in.vals = newEnv, newVals
 		in.walkFunc(callee, depth+1)
-		in.env = saved
+		in.env, in.vals = saved, savedVals
 	}
 }
 
 var elModelUC map[string]bool
+var elUCDecl map[string]*ast.FuncDecl
 
 func elTrace(funcs map[string]*ast.FuncDecl, key string) []elEvent {
-	in := &elInterp{funcs: funcs, held: map[string]int{}, epoch: map[string]int{}, env: map[string]*elClosure{}, modelUC: elModelUC}
+	in := &elInterp{funcs: funcs, held: map[string]int{}, epoch: map[string]int{}, env: map[string]*elClosure{}, modelUC: elModelUC, ucDecl: elUCDecl, vals: map[string]string{}}
+	if fd := funcs[key]; fd != nil {
+		if rn := elRecvName(fd); rn != "" {
+			in.vals[rn] = elRecv
+		}
+	}
 	in.walkFunc(funcs[key], 0)
 	return in.trace
 }
@@ -505,11 +827,27 @@ func genEntityLocal(outDir string) (string, error) {
 				}
 				for _, sp := range x.Specs {
 					vs := sp.(*ast.ValueSpec)
-					if vs.Type == nil {
-						continue
-					}
-					if t := exprString(vs.Type); t == "sync.Mutex" || t == "sync.RWMutex" {
-						for _, nm := range vs.Names {
+					for i, nm := range vs.Names {
+						var t ast.Expr = vs.Type
+						if t == nil && i < len(vs.Values) {
+							// var m = sync.Mutex{} / &sync.Mutex{} / new(sync.Mutex)
+							v := vs.Values[i]
+							if u, ok := v.(*ast.UnaryExpr); ok && u.Op == token.AND {
+								v = u.X
+							}
+							switch y := v.(type) {
+							case *ast.CompositeLit:
+								t = y.Type
+							case *ast.CallExpr:
+								if exprString(y.Fun) == "new" && len(y.Args) == 1 {
+									t = y.Args[0]
+								}
+							}
+						}
+						if t == nil {
+							continue
+						}
+						if ts := strings.TrimPrefix(exprString(t), "*"); ts == "sync.Mutex" || ts == "sync.RWMutex" {
 							pkgMutex[nm.Name] = true
 						}
 					}
@@ -519,8 +857,11 @@ func genEntityLocal(outDir string) (string, error) {
 	}
 	var notes []string
 
-	// the helpers of the use-case data type, from the model package's sources
+	// the helpers of the use-case data type: every method declared on NodeManagementUseCaseDataType (pointer or
+	// value receiver, whatever the receiver variable is called) in ANY non-test file of package model — located by
+	// what they are, not by the file they happen to live in
 	elModelUC = map[string]bool{}
+	ucMethods := map[string]*ast.FuncDecl{}
 	{
 		mdir := filepath.Join(RepoDir(), "model")
 		ments, err := os.ReadDir(mdir)
@@ -529,21 +870,46 @@ func genEntityLocal(outDir string) (string, error) {
 		}
 		for _, e := range ments {
 			n := e.Name()
-			if e.IsDir() || !strings.HasSuffix(n, ".go") || strings.HasSuffix(n, "_test.go") || !strings.Contains(n, "nodemanagement") {
+			if e.IsDir() || !strings.HasSuffix(n, ".go") || strings.HasSuffix(n, "_test.go") {
 				continue
 			}
-			f, err := parser.ParseFile(fset, filepath.Join(mdir, n), nil, 0)
+			f, err := parser.ParseFile(fset, filepath.Join(mdir, n), nil, parser.SkipObjectResolution)
 			if err != nil {
 				return "", err
 			}
 			for _, d := range f.Decls {
 				if x, ok := d.(*ast.FuncDecl); ok && elRecvType(x) == "NodeManagementUseCaseDataType" {
 					elModelUC[x.Name.Name] = true
+					ucMethods[x.Name.Name] = x
 				}
 			}
 		}
 		if len(elModelUC) == 0 {
-			notes = append(notes, "no method of model.NodeManagementUseCaseDataType found in model/*nodemanagement*.go")
+			notes = append(notes, "no method of model.NodeManagementUseCaseDataType found in package model")
+		}
+	}
+	// which operation of the registry a helper is: by its SIGNATURE (the five have five different ones), so that a
+	// renamed helper keeps its role; when a signature is shared by several methods the known name decides
+	helperName := map[string]int{"AddUseCaseSupport": 1, "SetAvailability": 2, "RemoveUseCaseSupport": 3, "RemoveUseCaseDataForAddress": 4, "HasUseCaseSupport": 5}
+	helperCode := map[string]int{}
+	elUCDecl = ucMethods
+	{
+		byClass := map[int][]string{}
+		for name, fd := range ucMethods {
+			if c := elUCSigClass(fd); c != 0 {
+				byClass[c] = append(byClass[c], name)
+			}
+		}
+		for c, names := range byClass {
+			if len(names) == 1 {
+				helperCode[names[0]] = c
+				continue
+			}
+			for _, name := range names {
+				if helperName[name] == c {
+					helperCode[name] = c
+				}
+			}
 		}
 	}
 
@@ -552,7 +918,7 @@ func genEntityLocal(outDir string) (string, error) {
 	locked := map[string]bool{}
 	lockOf := map[string]string{}
 	helperOf := map[string]string{}
-	helperCode := map[string]int{"AddUseCaseSupport": 1, "SetAvailability": 2, "RemoveUseCaseSupport": 3, "RemoveUseCaseDataForAddress": 4}
+	ownAddr := map[string]bool{}
 	for _, name := range ucOps {
 		tr := elTrace(funcs, "EntityLocal."+name)
 		var cs []elEvent
@@ -635,6 +1001,10 @@ func genEntityLocal(outDir string) (string, error) {
 			}
 		}
 		helperOf[name] = helper
+		ownAddr[name] = elAllOwn(tr)
+		if !ownAddr[name] {
+			notes = append(notes, name+": the address handed to the helper of the use-case data type is not recognisably the receiver's own (Device and Entity of its Address(), no Feature)")
+		}
 	}
 	// HasUseCaseSupport: a copy, the helper of that name, no store
 	hasReadOnly := false
@@ -652,7 +1022,11 @@ func genEntityLocal(outDir string) (string, error) {
 				names[e.detail] = true
 			}
 		}
-		hasReadOnly = nCopy > 0 && nStore == 0 && len(names) == 1 && names["HasUseCaseSupport"]
+		hasReadOnly = nCopy > 0 && nStore == 0 && len(names) == 1 && helperCode[sortedKeys(names)[0]] == 5
+		ownAddr["HasUseCaseSupport"] = elAllOwn(tr)
+		if !ownAddr["HasUseCaseSupport"] {
+			notes = append(notes, "HasUseCaseSupport: the address handed to the helper of the use-case data type is not recognisably the receiver's own")
+		}
 		if !hasReadOnly {
 			notes = append(notes, fmt.Sprintf("HasUseCaseSupport: copies %d, stores %d, helpers %v", nCopy, nStore, sortedKeys(names)))
 		}
@@ -764,9 +1138,12 @@ func genEntityLocal(outDir string) (string, error) {
 		fmt.Fprintf(&b, "/-- %s: every DataCopy and SetData it performs (directly or through helpers) lies inside one critical section of a package-level mutex -/\ndef locked%s : Bool := %v\n\n", name, name, locked[name])
 	}
 	for _, name := range ucOps {
-		fmt.Fprintf(&b, "/-- %s: the helper of model.NodeManagementUseCaseDataType it applies to the copy, after the copy and before the store inside the lock hold (1 AddUseCaseSupport, 2 SetAvailability, 3 RemoveUseCaseSupport, 4 RemoveUseCaseDataForAddress; 0 = none, several, another one, or outside) — found: %q -/\ndef helper%s : Nat := %d\n\n", name, helperOf[name], name, helperCode[helperOf[name]])
+		fmt.Fprintf(&b, "/-- %s: the helper of model.NodeManagementUseCaseDataType it applies to the copy, after the copy and before the store inside the lock hold (1 AddUseCaseSupport, 2 SetAvailability, 3 RemoveUseCaseSupport, 4 RemoveUseCaseDataForAddress; 0 = none, several, another one, or outside) — found: %q -/\ndef helper%s : Nat := %d\n\n", name, helperOf[name], name, rmwCode(helperCode[helperOf[name]]))
 	}
 	fmt.Fprintf(&b, "/-- HasUseCaseSupport: copies the data, asks the helper HasUseCaseSupport of the data type, stores nothing -/\ndef hasUseCaseSupportReadOnly : Bool := %v\n\n", hasReadOnly)
+	for _, name := range append(append([]string{}, ucOps...), "HasUseCaseSupport") {
+		fmt.Fprintf(&b, "/-- %s: the address it hands to the helper of the data type is the receiver's own: a FeatureAddressType whose Device and Entity are those of the receiver's Address() and whose Feature is not set (through local variables, helper methods, closure parameters) -/\ndef addressOwn%s : Bool := %v\n\n", name, name, ownAddr[name])
+	}
 	fmt.Fprintf(&b, "/-- GetOrAddFeature: every search of the feature list by type and role it performs (first lookup and re-check) happens under a mutex of the entity -/\ndef getOrAddSearchesLocked : Bool := %v\n\n", searchesLocked)
 	fmt.Fprintf(&b, "/-- GetOrAddFeature: NewFeatureLocal and the append to the feature list lie inside one critical section of a mutex of the entity -/\ndef getOrAddCreationLocked : Bool := %v\n\n", creationLocked)
 	fmt.Fprintf(&b, "/-- GetOrAddFeature: in that critical section, before the creation, the feature list is searched by type and role and a match is returned -/\ndef getOrAddRechecks : Bool := %v\n\n", rechecks)
@@ -778,10 +1155,100 @@ func genEntityLocal(outDir string) (string, error) {
 	if err := writeFile(outDir, "EntityLocal.lean", b.String()); err != nil {
 		return "", err
 	}
-	return fmt.Sprintf("useCaseMuxPackageLevel=%v locked=%v/%v/%v/%v helpers=%d/%d/%d/%d hasReadOnly=%v creationLocked=%v rechecks=%v searchesLocked=%v nextFeatureIdLocked=%v",
+	return fmt.Sprintf("useCaseMuxPackageLevel=%v locked=%v/%v/%v/%v helpers=%d/%d/%d/%d hasReadOnly=%v ownAddress=%v/%v/%v/%v/%v creationLocked=%v rechecks=%v searchesLocked=%v nextFeatureIdLocked=%v",
 		pkgLevel, locked[ucOps[0]], locked[ucOps[1]], locked[ucOps[2]], locked[ucOps[3]],
-		helperCode[helperOf[ucOps[0]]], helperCode[helperOf[ucOps[1]]], helperCode[helperOf[ucOps[2]]], helperCode[helperOf[ucOps[3]]], hasReadOnly,
+		rmwCode(helperCode[helperOf[ucOps[0]]]), rmwCode(helperCode[helperOf[ucOps[1]]]), rmwCode(helperCode[helperOf[ucOps[2]]]), rmwCode(helperCode[helperOf[ucOps[3]]]), hasReadOnly,
+		ownAddr[ucOps[0]], ownAddr[ucOps[1]], ownAddr[ucOps[2]], ownAddr[ucOps[3]], ownAddr["HasUseCaseSupport"],
 		creationLocked, rechecks, searchesLocked, nextLocked), nil
+}
+
+// elAllOwn: the trace applies a helper and every application is handed the receiver's own address
+func elAllOwn(tr []elEvent) bool {
+	n := 0
+	for _, e := range tr {
+		if e.kind == "modify" {
+			n++
+			if !e.own {
+				return false
+			}
+		}
+	}
+	return n > 0
+}
+
+// rmwCode: the read-only helper (5) is not one of the four read-modify-write helpers
+func rmwCode(c int) int {
+	if c >= 1 && c <= 4 {
+		return c
+	}
+	return 0
+}
+
+// elUCSigClass classifies a method of the use-case data type by its signature:
+// 1 (address, actor, name, further data … including a list) — add;  2 (address, actor, name, bool) — set availability;
+// 3 (address, actor, name) — remove;  4 (address) — remove all of an address;  5 (address, actor, name) bool — has;
+// 0 anything else. Type names are those of package model (exported API of the data model).
+func elUCSigClass(fd *ast.FuncDecl) int {
+	var ps []string
+	if fd.Type.Params != nil {
+		for _, f := range fd.Type.Params.List {
+			t := strings.TrimPrefix(exprString(f.Type), "*")
+			if _, ok := f.Type.(*ast.ArrayType); ok {
+				t = "[]"
+			} else if _, ok := f.Type.(*ast.Ellipsis); ok {
+				t = "[]"
+			}
+			n := len(f.Names)
+			if n == 0 {
+				n = 1
+			}
+			for i := 0; i < n; i++ {
+				ps = append(ps, t)
+			}
+		}
+	}
+	var rs []string
+	if fd.Type.Results != nil {
+		for _, f := range fd.Type.Results.List {
+			n := len(f.Names)
+			if n == 0 {
+				n = 1
+			}
+			for i := 0; i < n; i++ {
+				rs = append(rs, exprString(f.Type))
+			}
+		}
+	}
+	count := func(t string) int {
+		c := 0
+		for _, p := range ps {
+			if p == t {
+				c++
+			}
+		}
+		return c
+	}
+	if count("FeatureAddressType") != 1 {
+		return 0
+	}
+	key := count("UseCaseActorType") == 1 && count("UseCaseNameType") == 1
+	switch {
+	case len(ps) == 1 && len(rs) == 0:
+		return 4
+	case key && len(ps) == 3 && len(rs) == 0:
+		return 3
+	case key && len(ps) == 3 && len(rs) == 1 && rs[0] == "bool":
+		return 5
+	case key && len(ps) == 4 && count("bool") == 1 && len(rs) == 0:
+		return 2
+	case key && len(ps) > 4 && len(rs) == 0:
+		for _, p := range ps {
+			if strings.HasPrefix(p, "[]") {
+				return 1
+			}
+		}
+	}
+	return 0
 }
 
 func sortedKeys(m map[string]bool) []string {
